@@ -3,6 +3,12 @@ import json
 
 from . import core
 
+LEVEL_TEXT = (
+    'Lean 4 theorems over an association-list model of CanonicalAssets: add/sub/neg are pointwise integer arithmetic, the commutative-group laws hold up to semantic equality, == is exactly semantic equality, contains_total is the component-wise order on non-negative values, and the asset-expression round trip preserves the value for every iteration order of the map. The model is tied to assets.rs and reduce/mod.rs by a per-run differential correspondence over op trees through the whole public API (zero entries included) and an overflow stream.'
+)
+LEVEL_NOTE = (
+    'Trusted: Lean kernel, axioms propext/Classical.choice/Quot.sound only, the harness and driver, the hand-written model (tied by correspondence, not proof). i128 overflow is outside the theorems (amounts are Int); HashMap order is abstracted and proved immaterial.'
+)
 PROP = "C15"
 LEAN_TARGETS = ["Tx3Proofs.C15"]
 AUDIT_MODULES = ["Tx3Proofs.C15"]
